@@ -265,9 +265,67 @@ fn limited_is_in_scope(prop: &str) -> bool {
     matches!(prop, "C05" | "C07")
 }
 
+/// Reach probe: which instruction-selector forms (opcode x operand classes) does the
+/// JIT's bytecode for this case contain? R = register temporary, S = stack temporary
+/// (index >= 11), M = tape cell, I = immediate fitting 32 bits, J = wider immediate.
+fn jit_forms(c: &Check, v: &mut Verdict) {
+    use hpbf::bc::{Instr, Loc};
+    fn go<C: hpbf::CellType>(c: &Check, v: &mut Verdict) {
+        let prog = match std::panic::catch_unwind(|| hpbf::ir::Program::<C>::parse(&c.case.program).map(|p| p.optimize(c.case.level))) {
+            Ok(Ok(p)) => p,
+            _ => return,
+        };
+        let bcp = match std::panic::catch_unwind(std::panic::AssertUnwindSafe(|| hpbf::bc::CodeGen::translate(&prog, 11, false))) {
+            Ok(p) => p,
+            Err(_) => return,
+        };
+        let cls = |l: &Loc<C>| -> char {
+            match l {
+                Loc::Tmp(t) if *t >= 11 => 'S',
+                Loc::Tmp(_) => 'R',
+                Loc::Mem(_) | Loc::MemZero(_) => 'M',
+                Loc::Imm(i) => {
+                    let x = i.into_i64();
+                    if x >= i32::MIN as i64 && x <= i32::MAX as i64 {
+                        'I'
+                    } else {
+                        'J'
+                    }
+                }
+            }
+        };
+        let mut seen = std::collections::BTreeSet::new();
+        for i in &bcp.insts {
+            let f = match i {
+                Instr::Add(d, a, b) => format!("add_{}{}{}", cls(d), cls(a), cls(b)),
+                Instr::Sub(d, a, b) => format!("sub_{}{}{}", cls(d), cls(a), cls(b)),
+                Instr::Mul(d, a, b) => format!("mul_{}{}{}", cls(d), cls(a), cls(b)),
+                Instr::Copy(d, a) => format!("copy_{}{}", cls(d), cls(a)),
+                _ => continue,
+            };
+            seen.insert(f);
+        }
+        for f in seen {
+            v.bump(&format!("jitform_{}", f));
+        }
+        if bcp.temps > 11 {
+            v.bump("jit_programs_with_stack_temporaries");
+        }
+    }
+    match c.case.width {
+        8 => go::<u8>(c, v),
+        16 => go::<u16>(c, v),
+        32 => go::<u32>(c, v),
+        _ => go::<u64>(c, v),
+    }
+}
+
 fn eval_equiv(c: &Check, v: &mut Verdict) {
     let r = reference(c, 0, false);
     note_ref(v, &r);
+    if c.prop == "C03" && c.case.level == 2 {
+        jit_forms(c, v);
+    }
     let slack = r.events.len() + 64;
     let strict = limited_is_in_scope(&c.prop);
     match r.status {
